@@ -212,7 +212,11 @@ def tlc_tuples(out):
 TUPLE_RE = re.compile(r'^<<"(BAD|DRIFT|UNMODELLED|TRACE-DONE)", (.*)>>$')
 
 
-def validate_trace(prefix, conform=True, timeout=1800, chunk=40000):
+import threading
+_TLC_SLOTS = threading.BoundedSemaphore(int(os.environ.get("VERIF_TLC_PARALLEL", "6")))
+
+
+def validate_trace(prefix, conform=True, timeout=3000, chunk=40000):
     """TLC trace validation of one exploration (chunked, chunks run in parallel).
     Returns dict(bad=[(line, [names])], drift=[(line, base, [fields])], unmodelled=n, counts={}, n=…)."""
     import fcntl
@@ -223,27 +227,55 @@ def validate_trace(prefix, conform=True, timeout=1800, chunk=40000):
         return json.load(open(cached))
     trans = open(prefix + ".trans").read().splitlines()
     chunks = [trans[i:i + chunk] for i in range(0, len(trans), chunk)] or [[]]
-    procs = []
-    for ci, ch in enumerate(chunks):
+    # every chunk gets only the states its transitions refer to (renumbered), so that a TLC process never has to hold
+    # the whole exploration in memory; at most TLC_PARALLEL TLC processes run at a time in this process
+    state_lines = None
+    if len(chunks) > 1:
+        state_lines = {}
+        for l in open(prefix + ".states"):
+            state_lines[int(l[6:l.index(",", 6)])] = l   # {"id":N,"s":...}
+    def run_chunk(arg):
+        ci, ch = arg
         wd = scratch("tlc-%s-%d-%d" % (os.path.basename(os.path.dirname(prefix)), ci, os.getpid()))
         tf = os.path.join(wd, "chunk.trans")
-        open(tf, "w").write("\n".join(ch) + ("\n" if ch else ""))
-        env = {"VERIF_STATES": prefix + ".states", "VERIF_TRANS": tf, "VERIF_CONFORM": "1" if conform else "0"}
+        sf = prefix + ".states"
+        if state_lines is None:
+            open(tf, "w").write("\n".join(ch) + ("\n" if ch else ""))
+        else:
+            recs = [json.loads(x) for x in ch]
+            ids = sorted({r["pre"] for r in recs} | {r["post"] for r in recs} | {m for r in recs for m in r["mids"]})
+            remap = {old: k + 1 for k, old in enumerate(ids)}
+            sf = os.path.join(wd, "chunk.states")
+            with open(sf, "w") as f:
+                for old in ids:
+                    l = state_lines[old]
+                    f.write('{"id":%d,' % remap[old] + l[l.index(",", 6) + 1:])
+            with open(tf, "w") as f:
+                for r in recs:
+                    r["pre"], r["post"], r["mids"] = remap[r["pre"]], remap[r["post"]], [remap[m] for m in r["mids"]]
+                    f.write(json.dumps(r) + "\n")
+        env = {"VERIF_STATES": sf, "VERIF_TRANS": tf, "VERIF_CONFORM": "1" if conform else "0"}
         for f in os.listdir(SPEC):
             if f.endswith((".tla", ".cfg")):
                 shutil.copyfile(os.path.join(SPEC, f), os.path.join(wd, f))
-        cmd = ["java", "-XX:+UseParallelGC", "-Xmx6g", "-Xss64m", "-cp", TLC_JAR, "tlc2.TLC", "-workers", "1",
+        cmd = ["java", "-XX:+UseParallelGC", "-Xmx5g", "-Xss64m", "-cp", TLC_JAR, "tlc2.TLC", "-workers", "1",
                "-metadir", os.path.join(wd, "md"), "-config", "RolloutsTrace.cfg", "RolloutsTrace.tla"]
         e = dict(os.environ)
         e.update(env)
-        procs.append((ci, wd, subprocess.Popen(cmd, cwd=wd, env=e, stdout=subprocess.PIPE, stderr=subprocess.STDOUT, text=True)))
+        with _TLC_SLOTS:
+            try:
+                r = subprocess.run(cmd, cwd=wd, env=e, stdout=subprocess.PIPE, stderr=subprocess.STDOUT, text=True, timeout=timeout)
+            except subprocess.TimeoutExpired:
+                shutil.rmtree(wd, ignore_errors=True)
+                raise Inconclusive("TLC trace validation timeout")
+        shutil.rmtree(wd, ignore_errors=True)
+        return ci, r.stdout
+
+    import concurrent.futures
     res = {"bad": [], "drift": [], "unmodelled": [], "counts": {}, "n": len(trans), "states": 0}
-    for ci, wd, p in procs:
-        try:
-            out, _ = p.communicate(timeout=timeout)
-        except subprocess.TimeoutExpired:
-            p.kill()
-            raise Inconclusive("TLC trace validation timeout")
+    with concurrent.futures.ThreadPoolExecutor(max_workers=4) as ex:
+        outs = list(ex.map(run_chunk, list(enumerate(chunks))))
+    for ci, out in outs:
         done = False
         for line in tlc_tuples(out):
             m = TUPLE_RE.match(line.strip())
@@ -266,7 +298,6 @@ def validate_trace(prefix, conform=True, timeout=1800, chunk=40000):
             elif kind == "UNMODELLED":
                 mm = re.match(r'(\d+), "([^"]+)"$', rest)
                 res["unmodelled"].append((ci * chunk + int(mm.group(1)), mm.group(2)))
-        shutil.rmtree(wd, ignore_errors=True)
         if not done:
             raise Inconclusive("TLC did not consume the whole trace (chunk %d):\n%s" % (ci, out[-3000:]))
     json.dump(res, open(cached + ".tmp", "w"))
